@@ -4,6 +4,7 @@ package main
 
 import (
 	"fmt"
+	"go/token"
 	"go/types"
 	"sort"
 	"strings"
@@ -1359,5 +1360,269 @@ func ruleDELEGATEROLES(p *Program, rep *Report) {
 		rep.OK("DELEGATE-ROLES", "standaloneDelegate.BeginRead", p.Pos(fn.Pos()), "read-only transaction")
 	default:
 		rep.Bad("DELEGATE-ROLES", "standaloneDelegate.BeginRead", p.Pos(fn.Pos()), "Delegate.BeginRead can return a write transaction: reader, ACK planning and producer then serialise on the single writer lock (an ACK's cleanup transaction waits for its own planning transaction; producer and consumer block each other)")
+	}
+}
+
+// ---- round 5 ----
+
+// rulePEREVENTSTATE (C05, C12): writeState.eventBytes (bytes of the event being written) and eventID are state
+// of the UNFINISHED event.  A flush can run in the middle of an event (explicit Flush, or a Write that finds
+// the buffer full), so nothing but the event boundary (Writer.Next), the payload accounting (+= len(p)) and
+// the constructor may change them — in particular not a "reset the statistics" step of the flush that
+// rebuilds the whole writeState.
+func rulePEREVENTSTATE(p *Program, rep *Report) {
+	rep.Rule("PER-EVENT-STATE", 2, "writeState.eventBytes / eventID are only written by the event boundary (Writer.Next), by an increment of their own old value, or while a new Writer is constructed; a store of the whole writeState outside the constructor carries both fields over unchanged — a flush in the middle of a streamed event must not touch the state of the unfinished event")
+	ws := p.Named("pq", "writeState")
+	next := p.Method("pq", "Writer", "Next")
+	ctor := p.Func("pq", "newWriter")
+	nextReach := staticReach(p, next)
+	ctorReach := staticReach(p, ctor)
+	n := 0
+	for _, fname := range []string{"eventBytes", "eventID"} {
+		f := p.FieldVar("pq", "writeState", fname)
+		isOld := func(v ssa.Value) bool {
+			u, ok := stripConv(v).(*ssa.UnOp)
+			if !ok || u.Op != token.MUL {
+				return false
+			}
+			fa, ok := u.X.(*ssa.FieldAddr)
+			return ok && fieldOfAddr(fa) == f
+		}
+		for _, fn := range p.SrcFuncs() {
+			if fnPkgPath(fn) != modPath+"/pq" {
+				continue
+			}
+			for _, b := range fn.Blocks {
+				for _, ins := range b.Instrs {
+					st, ok := ins.(*ssa.Store)
+					if !ok {
+						continue
+					}
+					key := funcName(fn) + "|" + fname
+					// (1) direct store to the field
+					if fa, isFA := st.Addr.(*ssa.FieldAddr); isFA && fieldOfAddr(fa) == f {
+						if _, lit := fa.X.(*ssa.Alloc); lit && namedOf(fa.X.Type()) != nil && namedOf(fa.X.Type()).Obj() == ws.Obj() {
+							continue // field of a composite literal under construction: judged at the whole-struct store
+						}
+						n++
+						rep.Analysed(funcName(fn))
+						switch {
+						case nextReach[fn] || ctorReach[fn]:
+							rep.OK("PER-EVENT-STATE", key, p.InstrPos(ins), "event boundary / constructor")
+						case derivesFrom(st.Val, isOld, 0, map[ssa.Value]bool{}):
+							rep.OK("PER-EVENT-STATE", key, p.InstrPos(ins), "update of its own old value")
+						default:
+							rep.Bad("PER-EVENT-STATE", key, p.InstrPos(ins), "writeState."+fname+" is overwritten outside Writer.Next / the constructor with a value that does not derive from its old value: when this runs in the middle of a streamed event (flush between two Write calls) the event's size header / id no longer matches what was appended")
+						}
+						continue
+					}
+					// (2) store of a whole writeState
+					pt, isPtr := st.Addr.Type().Underlying().(*types.Pointer)
+					if !isPtr {
+						continue
+					}
+					if nn, isN := pt.Elem().(*types.Named); !isN || nn.Obj() != ws.Obj() {
+						continue
+					}
+					if _, tmp := st.Addr.(*ssa.Alloc); tmp {
+						continue // initialisation of a local temporary
+					}
+					n++
+					rep.Analysed(funcName(fn))
+					key += "|whole-struct"
+					if ctorReach[fn] {
+						rep.OK("PER-EVENT-STATE", key, p.InstrPos(ins), "constructor")
+						continue
+					}
+					keeps := false
+					if u, isLoad := st.Val.(*ssa.UnOp); isLoad && u.Op == token.MUL {
+						if a, isAlloc := u.X.(*ssa.Alloc); isAlloc {
+							vals, found := structFieldValues(p, st.Val, fname, 0)
+							_ = a
+							if found {
+								keeps = true
+								for _, v := range vals {
+									if !derivesFrom(v, isOld, 0, map[ssa.Value]bool{}) {
+										keeps = false
+									}
+								}
+							}
+						}
+					}
+					if keeps {
+						rep.OK("PER-EVENT-STATE", key, p.InstrPos(ins), "the new writeState carries "+fname+" over")
+					} else {
+						rep.Bad("PER-EVENT-STATE", key, p.InstrPos(ins), "the whole writeState is replaced and writeState."+fname+" is not carried over from its old value (a composite literal without the field zeroes it): after a flush in the middle of a streamed event the bytes already appended are no longer counted — the event's size header is too small, the reader truncates the event and mis-parses everything behind it")
+					}
+				}
+			}
+		}
+	}
+	if n == 0 {
+		rep.Unknown("PER-EVENT-STATE", "anchor", "", "no store to writeState.eventBytes / eventID found (anchor lost)")
+	}
+}
+
+// rulePAGEHEADERAGREE (C06, C05, C10): the writer keeps, per buffered page, the meta data it persists in the
+// page header (page.UpdateHeader: header field <- pageMeta field).  When a writer is created on a non-empty
+// queue the tail page is loaded back (pagePool.NewPageWith); every pageMeta field that UpdateHeader persists
+// must be restored there from the same header field, otherwise the next flush of that page writes a header
+// that contradicts its contents (e.g. first-event id 0 with a valid first-event offset) and the ACK/reader
+// arithmetic that uses the header goes wrong after the next reopen.
+func rulePAGEHEADERAGREE(p *Program, rep *Report) {
+	rep.Rule("PAGE-HEADER-AGREE", 2, "for every (event page header field, pageMeta field) pair that page.UpdateHeader persists, the page loader pagePool.NewPageWith restores that pageMeta field from that header field (sibling agreement of writer and loader, by backward slices)")
+	upd := p.Method("pq", "page", "UpdateHeader")
+	load := p.Method("pq", "pagePool", "NewPageWith")
+	hdr := p.Struct("pq", "eventPage")
+	meta := p.Struct("pq", "pageMeta")
+	isHdr, isMeta := map[*types.Var]bool{}, map[*types.Var]bool{}
+	for i := 0; i < hdr.NumFields(); i++ {
+		isHdr[hdr.Field(i)] = true
+	}
+	for i := 0; i < meta.NumFields(); i++ {
+		isMeta[meta.Field(i)] = true
+	}
+	rep.Analysed(funcName(upd), funcName(load))
+	type pair struct{ h, m *types.Var }
+	var pairs []pair
+	updReach := staticReach(p, upd)
+	for fn := range updReach {
+		for _, b := range fn.Blocks {
+			for _, ins := range b.Instrs {
+				c, ok := ins.(ssa.CallInstruction)
+				if !ok || len(c.Common().Args) < 2 {
+					continue
+				}
+				sc := c.Common().StaticCallee()
+				if sc == nil || sc.Name() != "Set" {
+					continue
+				}
+				fa, ok := c.Common().Args[0].(*ssa.FieldAddr)
+				if !ok || !isHdr[fieldOfAddr(fa)] {
+					continue
+				}
+				sl := &slicer{p: p, fields: map[*types.Var]bool{}, seen: map[sliceKey]bool{}, dataOnly: true, within: updReach}
+				sl.walk(c.Common().Args[1], 0, nil, 0)
+				for f := range sl.fields {
+					if isMeta[f] {
+						pairs = append(pairs, pair{fieldOfAddr(fa), f})
+					}
+				}
+			}
+		}
+	}
+	if len(pairs) == 0 {
+		rep.Unknown("PAGE-HEADER-AGREE", "page.UpdateHeader", p.Pos(upd.Pos()), "UpdateHeader persists no pageMeta field (anchor lost)")
+		return
+	}
+	sort.Slice(pairs, func(i, j int) bool { return pairs[i].h.Name() < pairs[j].h.Name() })
+	loadReach := staticReach(p, load)
+	for _, pr := range pairs {
+		restored := false
+		for fn := range loadReach {
+			if fnPkgPath(fn) != modPath+"/pq" {
+				continue
+			}
+			for _, b := range fn.Blocks {
+				for _, ins := range b.Instrs {
+					st, ok := ins.(*ssa.Store)
+					if !ok || addrField(st.Addr) != pr.m {
+						continue
+					}
+					sl := &slicer{p: p, fields: map[*types.Var]bool{}, seen: map[sliceKey]bool{}, dataOnly: true, within: loadReach}
+					sl.walk(st.Val, 0, nil, 0)
+					if sl.fields[pr.h] {
+						restored = true
+					}
+				}
+			}
+		}
+		key := "eventPage." + pr.h.Name() + "~pageMeta." + pr.m.Name()
+		if restored {
+			rep.OK("PAGE-HEADER-AGREE", key, p.Pos(load.Pos()), "persisted by UpdateHeader, restored by NewPageWith")
+		} else {
+			rep.Bad("PAGE-HEADER-AGREE", key, p.Pos(load.Pos()), "page.UpdateHeader persists pageMeta."+pr.m.Name()+" in header field "+pr.h.Name()+", but the loader pagePool.NewPageWith does not restore pageMeta."+pr.m.Name()+" from it: a writer created on a non-empty queue re-flushes its tail page with "+pr.h.Name()+" = 0 although the page holds events — the ACK then computes the new read position from a wrong header and un-ACKed events are skipped after the next reopen")
+		}
+	}
+}
+
+// ruleRELOADEVERYPATH (C10): readAllocatorState has an early success return for files without a free list;
+// whatever the commit-time switch keeps in memory and the loader restores from the header must be restored
+// on EVERY successful return of the loader, not only on the path that reads a free list.
+func ruleRELOADEVERYPATH(p *Program, rep *Report) {
+	rep.Rule("RELOAD-EVERY-PATH", 3, "every allocator field that readAllocatorState loads from a header field (metaPage.*) is stored on every path to a successful return of the loader — a state restored only on the path that also reads a free list is lost for files whose free list is empty")
+	loader := p.Func("txfile", "readAllocatorState")
+	hdr := p.Struct("txfile", "metaPage")
+	isHdr := map[*types.Var]bool{}
+	for i := 0; i < hdr.NumFields(); i++ {
+		isHdr[hdr.Field(i)] = true
+	}
+	rep.Analysed(funcName(loader))
+	type tgt struct {
+		loc string
+		h   *types.Var
+	}
+	blocks := map[tgt]map[*ssa.BasicBlock]bool{}
+	for _, b := range loader.Blocks {
+		for _, ins := range b.Instrs {
+			st, ok := ins.(*ssa.Store)
+			if !ok {
+				continue
+			}
+			f := addrField(st.Addr)
+			if f == nil {
+				continue
+			}
+			o := fieldOwner(p, f)
+			if o != "allocator" && o != "allocArea" {
+				continue
+			}
+			sl := &slicer{p: p, fields: map[*types.Var]bool{}, seen: map[sliceKey]bool{}, dataOnly: true}
+			sl.walk(st.Val, 0, nil, 0)
+			var hs []*types.Var
+			for g := range sl.fields {
+				if isHdr[g] {
+					hs = append(hs, g)
+				}
+			}
+			if len(hs) != 1 {
+				continue
+			}
+			loc := o + "." + f.Name()
+			if fa, isFA := st.Addr.(*ssa.FieldAddr); isFA {
+				if in, isIn := fa.X.(*ssa.FieldAddr); isIn {
+					loc = fieldOfAddr(in).Name() + "." + f.Name()
+				}
+			}
+			k := tgt{loc, hs[0]}
+			if blocks[k] == nil {
+				blocks[k] = map[*ssa.BasicBlock]bool{}
+			}
+			blocks[k][b] = true
+		}
+	}
+	var keys []tgt
+	for k := range blocks {
+		keys = append(keys, k)
+	}
+	sort.Slice(keys, func(i, j int) bool { return keys[i].loc < keys[j].loc })
+	if len(keys) == 0 {
+		rep.Unknown("RELOAD-EVERY-PATH", "readAllocatorState", p.Pos(loader.Pos()), "the loader restores no allocator field from the header (anchor lost)")
+		return
+	}
+	for _, k := range keys {
+		reach := reachableAvoiding(loader.Blocks[0], blocks[k], nil)
+		bad := ""
+		for blk := range reach {
+			if r, ok := blk.Instrs[len(blk.Instrs)-1].(*ssa.Return); ok && returnsNilError(r) {
+				bad = p.InstrPos(r)
+			}
+		}
+		key := "metaPage." + k.h.Name() + "->" + k.loc
+		if bad == "" {
+			rep.OK("RELOAD-EVERY-PATH", key, p.Pos(loader.Pos()), "restored on every successful return")
+		} else {
+			rep.Bad("RELOAD-EVERY-PATH", key, bad, k.loc+" is restored from header field "+k.h.Name()+" only on some paths of readAllocatorState: the successful return at "+bad+" is reached without it (e.g. the early return for a file without free list), so a reopened file starts with "+k.loc+" = 0 while the instance that was never closed — and the header — hold the real value")
+		}
 	}
 }
